@@ -128,6 +128,15 @@ static_assert(_MDSPAN_CPLUSPLUS >= MDSPAN_CXX_STD_14, "mdspan requires C++14 or 
 #  define _MDSPAN_NO_UNIQUE_ADDRESS
 #endif
 
+// Verification hook (off unless MDSPAN_VERIF_FORCE_NO_UNIQUE_ADDRESS_EMULATION is defined): select the
+// base-class emulation of [[no_unique_address]] also on compilers that support the attribute, so that the
+// emulation code paths can be built and compared with the attribute ones on the same compiler.
+#ifdef MDSPAN_VERIF_FORCE_NO_UNIQUE_ADDRESS_EMULATION
+#  undef _MDSPAN_USE_ATTRIBUTE_NO_UNIQUE_ADDRESS
+#  undef _MDSPAN_NO_UNIQUE_ADDRESS
+#  define _MDSPAN_NO_UNIQUE_ADDRESS
+#endif
+
 // AMDs HIP compiler seems to have issues with concepts
 // it pretends concepts exist, but doesn't ship <concept>
 #ifndef __HIPCC__
